@@ -253,6 +253,11 @@ def _acceptor_handlers(world, beh, log):
             ds.PatientName = "X" * b.get("nbytes", 16)
             ds.file_meta = FileMetaDataset()
             ds.file_meta.TransferSyntaxUID = IMPLICIT
+            if b.get("bad_last") and i == n - 1:
+                # an instance that cannot be encoded (a str where US is expected): the sub-operation fails locally, nothing is sent for it
+                from pydicom.dataelem import DataElement
+
+                ds[0x00280010] = DataElement(0x00280010, "US", "not-a-number", validation_mode=0)
             log.append(("yield", "get", i, round(world.now - 1000.0, 4)))
             yield 0xFF00, ds
 
